@@ -126,6 +126,34 @@ def run(facts, rep, tier, ctx):
         from . import c04 as _c04
         from .c10 import _Prefixed as _Pf
         _c04.read_to_string_rules(facts, _Pf(rep, "A") if asyncw else rep, w_, D, "R16.9")
+        # R16.10 the observers of the call alphabet (exists, metadata, read_dir, open) reach the filesystem through the path type: each
+        # of them is ONE backend call — its result is then that call's result at one point in time.  A second look at the filesystem
+        # from the same observer (a listing whose entries are re-validated one by one with exists(), lazily, as the iterator is
+        # consumed) combines states of several points in time into an answer no sequential execution gives
+        from ..pathflow import OBSERVING as _OBS, MUTATING as _MUT
+        from ..pathrules import sname as _sn
+        pm = w_.path_methods()
+        k10 = 0
+        inter = Inter(facts)
+        tname = w_.trait.rsplit("::", 1)[1]
+        for nm in ("exists", "metadata", "read_dir", "open_file"):
+            pb = pm.get(nm)
+            if pb is None:
+                continue
+            backend, extra = [], []
+            for cb in inter.code_bodies(pb):
+                for s_ in inter.sites(cb):
+                    n_ = _sn(s_.path)
+                    if (s_.trait or "").endswith(tname) and (n_ in _OBS or n_ in _MUT):
+                        backend.append((n_, s_.line))
+                    elif (s_.self_ty or "").endswith(w_.path_ty.rsplit("::", 1)[1]) and (n_ in _OBS or n_ in _MUT or n_ in ("is_file", "is_dir", "walk_dir", "read_to_string")):
+                        extra.append((n_, s_.line))
+            ok10 = len(backend) == 1 and backend[0][0] == nm and not extra
+            k10 += 1
+            rep.ob(("A/" if asyncw else "") + "R16.10", pb.id, "%s is a single backend call" % nm, ok10, "" if ok10 else
+                   "%s looks at the filesystem more than once (backend calls %s, path-level calls %s): under concurrent updates its "
+                   "answer mixes several states" % (nm, [x[0] for x in backend], [x[0] for x in extra]), pb.span)
+        rep.floor("path-level observers of the alphabet judged (%s)" % w_.tag, k10, 4)
     rep.assume("every access to the map goes through a guard (enforced by the type system: the map lives inside the RwLock)")
     rep.assume("per-call linearizability only: compositions in the path layer (get_parent + create_dir) are separate calls by design")
 
